@@ -4,7 +4,8 @@ L(ver, dt, mode, bo, widths, rk, N, off, endc, pad, stext) ==
   [ver |-> ver, dt |-> dt, mode |-> mode, bo |-> bo, widths |-> widths, rk |-> rk, N |-> N,
    off |-> off, endc |-> endc, pad |-> pad, ev |-> "asc", stext |-> stext, an |-> IF pad = 3 THEN "header" ELSE "none", nx |-> IF N = 1 THEN 1024 ELSE 0,
    order |-> IF bo = "12" \/ widths = <<8, 24>> THEN "dta" ELSE "tda",
-   onum |-> IF bo = "4321" THEN "right" ELSE IF dt = "F" THEN "left" ELSE "zero"]
+   onum |-> IF bo = "4321" THEN "right" ELSE IF dt = "F" THEN "left" ELSE "zero",
+   knum |-> IF bo = "21" THEN "blank" ELSE "zero"]
 MCLays == { L("3.0", "I", "L", "1234", <<16, 16>>, <<"pow", "np">>, 2, "header", "last", 0, FALSE),
             L("3.1", "I", "L", "4321", <<8, 24>>, <<"pow", "pow">>, 2, "text", "onepast", 3, TRUE),
             L("2.0", "I", "L", "21", <<8>>, <<"powm3">>, 1, "header", "onepast", 0, FALSE),
